@@ -145,10 +145,12 @@ def run(tier):
             # a sample merely CLOSE to the nodata value is not no-data (multiples of 1/64: exact in float32 and at scale 1000... of 1/8)
             data[rng.randint(nb), rng.randint(rows), rng.randint(cols)] = nodata + float(rng.choice([0.0625, -0.0625, 1.0 / 512]))
         descs = [f"b{i}" for i in range(nb)] if nb > 1 else None
-        fimg = build.write_tif(tmp / f"i{k}.tif", data, dtype=dt, descriptions=descs)
+        # every fifth case REWRITES files that an earlier case of this process has read (same names, new content and shape)
+        reuse = (k % 5 == 0)
+        fimg = build.write_tif(tmp / ("reused_img.tif" if reuse else f"i{k}.tif"), data, dtype=dt, descriptions=descs)
         with_mask = k % 2 == 0
         inmask = rng.choice([-1, 0, 0, 0, 1, 2, 255], size=(rows, cols)).astype(np.int16) if with_mask else None
-        fmask = build.write_tif(tmp / f"m{k}.tif", inmask) if with_mask else None
+        fmask = build.write_tif(tmp / ("reused_msk.tif" if reuse else f"m{k}.tif"), inmask) if with_mask else None
         disp_kind = ["list", "grid", "none"][k % 3]
         if disp_kind == "list":
             disp = [-3, 2]
@@ -160,7 +162,7 @@ def run(tier):
         sec = {"img": fimg, "nodata": nodata, "mask": fmask, "disp": disp}
         stored = data.astype(dt).astype(np.float32)          # what the file holds, read as float32
         feat = {"dtype": np.dtype(dt).name, "nodata": str(nodata), "bands": nb, "mask": with_mask, "disp": disp_kind,
-                "negative_mask_values": bool(with_mask and (inmask < 0).any()),
+                "negative_mask_values": bool(with_mask and (inmask < 0).any()), "file_rewritten_in_process": reuse,
                 "inf_nodata_with_opposite_inf_sample": bool(isinstance(nodata, float) and np.isinf(nodata) and np.isinf(stored).any() and (stored == -nodata).any())}
         chk.count(("dataset", k, np.dtype(dt).name, str(nodata), nb, with_mask, disp_kind))
         try:
@@ -169,20 +171,27 @@ def run(tier):
             chk.violation("total", dict(feat, exception=type(exc).__name__), {"section": {k2: str(v2) for k2, v2 in sec.items()}, "exception": repr(exc)[:300]},
                           f"create_dataset_from_inputs raised on {feat}")
             continue
-        im = ds["im"].data if nb > 1 else ds["im"].data[np.newaxis]
-        out = {"im": [enc_samples(b) for b in im], "dtype_ok": str(ds["im"].dtype) == "float32",
-               "has_msk": "msk" in ds.data_vars, "msk": enc_int(ds["msk"].data) if "msk" in ds.data_vars else enc_int(np.zeros((rows, cols))),
-               "no_data_img": enc_one(ds.attrs.get("no_data_img", np.nan)),
-               "bands_ok": (list(ds.coords["band_im"].data) == descs) if nb > 1 else ("band_im" not in ds.coords),
-               "coords_ok": list(ds.coords["row"].data) == list(range(rows)) and list(ds.coords["col"].data) == list(range(cols)),
-               "valid_pixels": int(ds.attrs["valid_pixels"]), "no_data_mask": int(ds.attrs["no_data_mask"])}
-        if disp_kind == "none":
-            out["disp_ok"] = "disparity" not in ds.data_vars
-        elif disp_kind == "list":
-            out["disp_ok"] = "disparity" in ds.data_vars and bool(np.all(ds["disparity"].data[0] == -3) and np.all(ds["disparity"].data[1] == 2)) \
-                and list(ds.coords["band_disp"].data) == ["min", "max"]
-        else:
-            out["disp_ok"] = "disparity" in ds.data_vars and bool(np.array_equal(ds["disparity"].data, g)) and list(ds.coords["band_disp"].data) == ["min", "max"]
+        try:
+            if tuple(ds["im"].shape) != ((nb, rows, cols) if nb > 1 else (rows, cols)):
+                raise ValueError(f"im has shape {tuple(ds['im'].shape)}, the file holds {(nb, rows, cols)}")
+            im = ds["im"].data if nb > 1 else ds["im"].data[np.newaxis]
+            out = {"im": [enc_samples(b) for b in im], "dtype_ok": str(ds["im"].dtype) == "float32",
+                   "has_msk": "msk" in ds.data_vars, "msk": enc_int(ds["msk"].data) if "msk" in ds.data_vars else enc_int(np.zeros((rows, cols))),
+                   "no_data_img": enc_one(ds.attrs.get("no_data_img", np.nan)),
+                   "bands_ok": (list(ds.coords["band_im"].data) == descs) if nb > 1 else ("band_im" not in ds.coords),
+                   "coords_ok": list(ds.coords["row"].data) == list(range(rows)) and list(ds.coords["col"].data) == list(range(cols)),
+                   "valid_pixels": int(ds.attrs["valid_pixels"]), "no_data_mask": int(ds.attrs["no_data_mask"])}
+            if disp_kind == "none":
+                out["disp_ok"] = "disparity" not in ds.data_vars
+            elif disp_kind == "list":
+                out["disp_ok"] = "disparity" in ds.data_vars and bool(np.all(ds["disparity"].data[0] == -3) and np.all(ds["disparity"].data[1] == 2)) \
+                    and list(ds.coords["band_disp"].data) == ["min", "max"]
+            else:
+                out["disp_ok"] = "disparity" in ds.data_vars and bool(np.array_equal(ds["disparity"].data, g)) and list(ds.coords["band_disp"].data) == ["min", "max"]
+        except (KeyError, ValueError, IndexError, AttributeError) as exc:
+            chk.violation("dataset_structure", dict(feat, exception=type(exc).__name__), {"section": {k2: str(v2) for k2, v2 in sec.items()}, "exception": repr(exc)[:300]},
+                          f"the dataset read from the section does not have the structure of the files: {exc!r}")
+            continue
         cid = f"ds{k}"
         cases.append({"id": cid, "step": "dataset", "scale": SCALE, "rows": rows, "cols": cols, "nb": nb, "img": [enc_samples(b) for b in stored], "nodata": enc_one(nodata),
                       "mask_given": with_mask, "inmask": enc_int(inmask if with_mask else np.zeros((rows, cols))), "out": out})
